@@ -197,8 +197,17 @@ def _clear_loop():
     def inv(it, env):
         c = it.c
         d, q = _ld_parts(it, env['self'])
+        u0, t0 = env['$UT_entry']
         return [('tokens-nonneg', c.hget(q, 'qsize') >= 0), ('deque-empty', B.seq_len(it, d) == 0),
-                ('every-token-unfinished', c.hget(q, 'unfinished') >= c.hget(q, 'qsize'))]
+                ('every-token-unfinished', c.hget(q, 'unfinished') >= c.hget(q, 'qsize')),
+                # each token taken out is also taken off the unfinished count -- and nothing else is: a token that a
+                # consumer already holds (got, not yet task_done) stays counted
+                ('unfinished-drops-with-the-tokens', c.hget(q, 'unfinished') - c.hget(q, 'qsize') == u0 - t0)]
+
+    def on_entry(it, env):
+        c = it.c
+        d, q = _ld_parts(it, env['self'])
+        env['$UT_entry'] = (c.hget(q, 'unfinished'), c.hget(q, 'qsize'))
 
     def mods(it, env):
         d, q = _ld_parts(it, env['self'])
@@ -207,7 +216,9 @@ def _clear_loop():
     def var(it, env):
         d, q = _ld_parts(it, env['self'])
         return it.c.hget(q, 'qsize')
-    return LoopSpec(inv, mods, var, 'clear-drain')
+    sp = LoopSpec(inv, mods, var, 'clear-drain')
+    sp.on_entry = on_entry
+    return sp
 
 
 # ---------------------------------------------------------------- loops of the live-output wrappers
